@@ -31,6 +31,12 @@ def pipe_eval(jobs, *, procs=14, modules=(), env=None, timeout=1800, script='pip
         for part in ex.map(work, spans):
             for i, r in part:
                 results[i] = r
+    for r in results:
+        # the harness binds to named entry points of the code; if one of them is gone (refactoring), that is a machinery
+        # failure (exit 2: the binding must be updated), never a verdict about the property
+        if r and 'error' in r and (r.get('type') in ('ImportError', 'ModuleNotFoundError') or
+                                   (r.get('type') == 'AttributeError' and "module 'outrank" in r['error'])):
+            raise E.MachineryError('the code no longer exposes an entry point the harness binds to: ' + r['error'])
     return results
 
 
